@@ -72,8 +72,36 @@ def longRowCount (t : List Cell) : Option Nat :=
   (t.mapM fun c => match cleanFieldDicts c c.values.keys with
     | .ok fds => some (fds.map List.length).sum | .error _ => none).map List.sum
 
+/-- how many numbers a value holds: a sample array its size, anything else one -/
+def numCount : Val → Nat
+  | .arr _ _ d => d.length
+  | _ => 1
+
+/-- the scenarios of a cell, as the property says: 1 for a cell of scalars, S for a cell of S-sample
+arrays (stated on the cell alone — NOT through the writer's helpers) -/
+def scenarioCount (c : Cell) : Nat := (c.values.map fun kv => numCount kv.2).foldl max 1
+
+/-- the fields of a cell that hold a value -/
+def valuedFields (c : Cell) : List String := (c.values.filter fun kv => kv.2 != Val.none).map (·.1)
+
+/-- wide form: one row per cell and scenario -/
+def wideRows (t : List Cell) : Nat := (t.map scenarioCount).sum
+
+/-- long form: one row per cell, scenario and field -/
+def longRows (t : List Cell) : Nat := (t.map fun c => scenarioCount c * (valuedFields c).length).sum
+
+/-- the index set of the wide rows: (cell, scenario), in file order -/
+def cellScenarios (t : List Cell) : List (Cell × Nat) :=
+  t.flatMap fun c => (List.range (scenarioCount c)).map fun i => (c, i)
+
+/-- the index set of the long rows: (cell, scenario, field), in file order -/
+def cellScenarioFields (t : List Cell) : List (Cell × Nat × String) :=
+  t.flatMap fun c => (List.range (scenarioCount c)).flatMap fun i => (valuedFields c).map fun f => (c, i, f)
+
+/-- the row-count clause the driver evaluates on the number of rows an independent CSV reader finds
+(`wideRowCount` / `longRowCount` above are the writer's own count, kept for `rows_count_wide/long`) -/
 def rowCountSpec (long : Bool) (t : List Cell) (n : Nat) : Bool :=
-  (if long then longRowCount t else wideRowCount t) == some n
+  (if long then longRows t else wideRows t) == n
 
 /-- array frame / matrix round trips: same cells, numbers as floats -/
 def backSpec (t out : List Cell) : Bool := sameNumeric out t
